@@ -150,6 +150,11 @@ func (x *Exec) oblige(kind, name string, guard, goal *smt.Term, pos token.Pos, t
 		}
 		x.obls = append(x.obls, o)
 	}
+	if kind == "post" && x.rootC != nil && x.rootC.Opts["independentposts"] != "" {
+		// `opt independentposts 1`: every postcondition is proved on its own
+		// (earlier ones are not added as hypotheses of later ones)
+		return
+	}
 	if kind != "oncall" {
 		// (facts about callback arguments are not needed downstream and would
 		// only burden later nonlinear queries)
